@@ -22,6 +22,7 @@ EXPLANATION = (
     "ordered len is exactly running + parked; R15.4 the slot-map insert refuses exactly where the slot at the free-list head "
     "does not exist, and the unbounded push has no refusing path (C02 R2.6). NOT decided: observer values over all histories "
     "(needs the free-list data-structure invariant).")
+WITNESSES = "thorough"  # E3 compile_fail witnesses (tier in which they run)
 ASSUMPTIONS = [
     "dev-profile MIR with overflow checks on (thorough tier repeats without them: the rule looks at the Sub operator, not at the Assert)",
     "BinaryHeap::with_capacity / Vec::with_capacity(0) do not panic",
